@@ -17,7 +17,10 @@ open Rend
 
 variable {ε : Type}
 
-def metaKey (key : Bytes) : Bytes := key ++ Bytes.ofString "-meta"
+/-- "-meta" -/
+def metaSuffix : Bytes := [45, 109, 101, 116, 97]
+
+def metaKey (key : Bytes) : Bytes := key ++ metaSuffix
 
 /-- `chunkKey`: key ++ "-" ++ decimal(chunk). -/
 def chunkKey (key : Bytes) (i : Nat) : Bytes := key ++ [45] ++ Bytes.decDigits i
